@@ -126,13 +126,40 @@ class Wrap(ast.NodeTransformer):
     visit_While = visit_For
 
 
-KINDS = {"wrap": Wrap, "flip": Flip, "aug": Aug, "ifnot": IfNot, "const": Const, "temp": Temp, "doc": Doc, "rename": None, "mix": None}
+def extract_helpers(tree: ast.Module) -> None:
+    """extract-function refactoring: in every top-level function the value of each `return <call to Result>` statement
+    moves into a new module-level helper that receives the local names it reads"""
+    import builtins
+
+    mod_names = {n.name for n in tree.body if isinstance(n, (ast.FunctionDef, ast.ClassDef))} | {a.asname or a.name.split(".")[0] for n in tree.body if isinstance(n, (ast.Import, ast.ImportFrom)) for a in n.names} | {t.id for n in tree.body if isinstance(n, ast.Assign) for t in n.targets if isinstance(t, ast.Name)}
+    new_defs = []
+    k = 0
+    for fn in [n for n in tree.body if isinstance(n, ast.FunctionDef)]:
+        for r in [n for n in ast.walk(fn) if isinstance(n, ast.Return) and isinstance(n.value, ast.Call) and isinstance(n.value.func, ast.Name) and n.value.func.id == "Result"]:
+            owner = next(f for f in ast.walk(fn) if isinstance(f, ast.FunctionDef) and any(x is r for x in ast.walk(f)) and not any(isinstance(g, ast.FunctionDef) and g is not f and any(x is r for x in ast.walk(g)) for g in ast.walk(f)))
+            if owner is not fn:
+                continue
+            if any(isinstance(x, (ast.Lambda, ast.GeneratorExp, ast.ListComp, ast.DictComp, ast.SetComp, ast.NamedExpr)) for x in ast.walk(r.value)):
+                continue
+            names = sorted({x.id for x in ast.walk(r.value) if isinstance(x, ast.Name) and isinstance(x.ctx, ast.Load) and x.id not in mod_names and not hasattr(builtins, x.id)})
+            hname = f"_packaged_result_{k}"
+            k += 1
+            new_defs.append(ast.FunctionDef(name=hname, args=ast.arguments(posonlyargs=[], args=[ast.arg(arg=a) for a in names], kwonlyargs=[], kw_defaults=[], defaults=[]), body=[ast.Return(value=r.value)], decorator_list=[], returns=None, type_params=[], lineno=r.lineno, col_offset=0))
+            r.value = ast.Call(func=ast.Name(id=hname, ctx=ast.Load()), args=[ast.Name(id=a, ctx=ast.Load()) for a in names], keywords=[])
+    tree.body.extend(new_defs)
+
+
+KINDS = {"extract": None, "wrap": Wrap, "flip": Flip, "aug": Aug, "ifnot": IfNot, "const": Const, "temp": Temp, "doc": Doc, "rename": None, "mix": None}
 
 
 def transform(src: str, kind: str, only_func: str | None = None) -> str:
     tree = ast.parse(src)
     if kind == "rename":
         rename_locals(tree)
+        return ast.unparse(tree) + "\n"
+    if kind == "extract":
+        extract_helpers(tree)
+        ast.fix_missing_locations(tree)
         return ast.unparse(tree) + "\n"
     if kind == "mix":
         for k in ("flip", "aug", "ifnot", "const", "temp", "doc"):
